@@ -4,7 +4,7 @@ From CNV Require Import Base.Prelude Base.Str Spec.Runs Spec.Regions Model.Acces
   Proofs.Access Proofs.AccessJoin Gen.AccessDefaults
   Model.IvRow Spec.Cover Model.AccessPipe Proofs.AccessPipe
   Model.AccessText Proofs.AccessPipeLib Proofs.AccessPipeline Proofs.AccessGenome
-  Proofs.AccessGenomeTotal Proofs.AccessText Gen.FnAccess Proofs.FnAccess.
+  Proofs.AccessGenomeTotal Proofs.AccessText Gen.FnAccess Proofs.FnAccess Gen.FnAccessScan Proofs.FnAccessScan.
 
 (* For every FASTA record, whatever the line width -- EVERY cut of the sequence into
    lines, blank lines included (a blank line is skipped since fix 784419a; before it,
@@ -387,3 +387,25 @@ Theorem C13_source_join_guard : forall g rest ps pe,
      fst (nth i rest (0, 0)) - prev_end > 0) ->
   exists r, join_from g ps pe rest = Some r.
 Proof. exact join_from_some. Qed.
+
+(* ---- loop tie: the scanner's `for line in infile:` loop, translated ONE ITERATION at a time from the Python
+   source (Gen/FnAccessScan.v fn_scan_step).  The Python tests on the stripped line are read as the model's
+   tests on its characters (`not line` = no character, `"N" in line` = existsb, all(c == "N") = forallb,
+   len(line) = length); the mixed line's array code is an opaque range whose effect is Model/Access.v's *)
+Theorem C13_source_scan_step : forall {A} (isN : A -> bool) chrom cursor run_start hn stripped (line : list A),
+  step_on_line isN chrom cursor run_start hn stripped line
+  = let '(out, (cursor', rs')) := scan_line isN (cursor, run_start) line in
+    (chrom, cursor', rs', tag3 chrom out).
+Proof. exact @source_scan_line. Qed.
+
+(* a header line emits the open run up to the cursor and resets the record state *)
+Theorem C13_source_scan_header : forall chrom cursor run_start hn stripped b1 b2 b3 len my mrs,
+  fn_scan_step chrom cursor run_start true hn stripped b1 b2 b3 len my mrs
+  = (hn, 0, None, tag3 chrom (emit_open run_start cursor)).
+Proof. exact source_scan_header. Qed.
+
+(* the generated step folded over the sequence lines of a record IS the model's scan_lines *)
+Theorem C13_source_scan_lines : forall {A} (isN : A -> bool) chrom lines cursor run_start,
+  gen_scan isN chrom cursor run_start lines
+  = let '(out, st) := scan_lines isN (cursor, run_start) lines in (tag3 chrom out, st).
+Proof. exact @source_scan_lines. Qed.
